@@ -29,6 +29,10 @@ func parseFault(f Op, xo *xferOpts, mfs *memFS) {
 		xo.cfg.FailSendR = fp.at
 	case "recvR":
 		xo.cfg.FailRecvR = fp.at
+	case "dieR":
+		xo.cfg.DieRecvR = fp.at
+	case "dieS":
+		xo.cfg.DieSendS = fp.at
 	case "walk":
 		if mfs != nil {
 			mfs.walkFailAt = fp.at
